@@ -17,6 +17,7 @@ Clause(e, obs) ==
      ELSE IF needed # e.out.req THEN "frames"
      ELSE IF obs.ev # e.out.ev THEN "events"
      ELSE IF obs.dlv # (IF e.out.dlv THEN 1 ELSE 0) THEN "delivery"
+     ELSE IF obs.rep # (IF e.out.rep THEN 1 ELSE 0) THEN "reply-routing"
      ELSE IF obs.cs # e.s.cs THEN "state"
      ELSE "ok"
 
@@ -28,7 +29,7 @@ Run(s, steps, l) ==
        IN IF c = "ok" THEN Run(e.s, steps, l + 1)
           ELSE [ok |-> FALSE, at |-> l, clause |-> c, exp |-> e.out, cs |-> e.s.cs]
 
-Verdict(t) == Run([mode |-> t.mode, enabled |-> FALSE, cs |-> "NC", openSel |-> FALSE], t.steps, 1)
+Verdict(t) == Run([mode |-> t.mode, enabled |-> FALSE, cs |-> "NC", openSel |-> FALSE, openData |-> FALSE], t.steps, 1)
 
 ASSUME \A n \in 1..Len(Traces) :
          LET v == Verdict(Traces[n])
